@@ -26,10 +26,10 @@ Creations(h, b) == {i \in DOMAIN h : h[i].a = "CreateObserver" /\ h[i].arg.b = b
 Born(h, b)      == MaxOf(Creations(h, b))
 Target(h, b)    == h[Born(h, b)].arg.o
 AliveNow(h, b)  == /\ Creations(h, b) # {}
-                   /\ ~\E i \in DOMAIN h : i > Born(h, b) /\ h[i].a = "DestroyObserver" /\ h[i].arg.b = b
+                   /\ ~\E i \in DOMAIN h : i > Born(h, b) /\ (h[i].a = "Teardown" \/ (h[i].a = "DestroyObserver" /\ h[i].arg.b = b))
 PollsOf(h, b)   == {i \in DOMAIN h : i > Born(h, b) /\ (h[i].a = "PollAll" \/ (h[i].a = "Poll" /\ h[i].arg.b = b))}
 Since(h, b)     == IF PollsOf(h, b) = {} THEN Born(h, b) ELSE MaxOf(PollsOf(h, b))
-Orphaned(h, b)  == \E i \in DOMAIN h : i > Born(h, b) /\ h[i].a = "DestroyObservable" /\ h[i].arg.o = Target(h, b)
+Orphaned(h, b)  == \E i \in DOMAIN h : i > Born(h, b) /\ (h[i].a = "Teardown" \/ (h[i].a = "DestroyObservable" /\ h[i].arg.o = Target(h, b)))
 ShouldReport(h, b) ==
   /\ AliveNow(h, b)
   /\ ~Orphaned(h, b)
@@ -38,7 +38,7 @@ ShouldReport(h, b) ==
 SubjectAlive(h, o) ==
   LET C == {i \in DOMAIN h : h[i].a = "CreateObservable" /\ h[i].arg.o = o} IN
   /\ C # {}
-  /\ ~\E i \in DOMAIN h : i > MaxOf(C) /\ h[i].a = "DestroyObservable" /\ h[i].arg.o = o
+  /\ ~\E i \in DOMAIN h : i > MaxOf(C) /\ (h[i].a = "Teardown" \/ (h[i].a = "DestroyObservable" /\ h[i].arg.o = o))
 
 Front(h) == SubSeq(h, 1, Len(h) - 1)
 
